@@ -50,7 +50,7 @@ class Stats:
 def describe(src, res):
     c = res.cfg
     return dict(source=src, args=list(c.args), w=c.w, stack=c.stack, unchecked=c.unchecked,
-                vm=list(map(_pr, hidrun.terminal(res.run))), ref=[_pr(x) for x in (res.ref[:3] if res.ref else [])],
+                vm=[_pr(x)[:300] if isinstance(_pr(x), str) else x for x in hidrun.terminal(res.run)], ref=[_pr(x)[:300] if isinstance(_pr(x), str) else x for x in (res.ref[:3] if res.ref else [])],
                 detail=res.run.detail, how='/venv/bin/python tools/diffrun.py <source file> %s -m %d -s %d%s' % (
                     ' '.join(c.args), c.w, c.stack, ' --unchecked' if c.unchecked else ''))
 
